@@ -95,3 +95,140 @@ Definition locate (files : list disk) (pos : Z) : option (N * Z) :=
       | _ => None
       end
   end.
+
+(** * The header checks of [open_common] / [init_disk_set] that depend on the
+      order in which the files are probed
+
+    [hdr]: what the partition header (and, for disk #1, the disk-set header
+    with its volume table) of one file says.  GUIDs and the time stamp are
+    [N]s.  The first file probed ([fidx == 0]) is the reference for block
+    size, system id, disk-set id and time stamp.  [dmap[]] remembers, per disk
+    number, a volume id and whether that disk was seen: a disk probed before
+    disk #1 leaves the id of its own partition header there
+    ([process_vol_id]); when disk #1 arrives its volume table is compared with
+    the ids remembered for the disks already seen and copied for the others
+    ([init_disk_set]); a disk probed after disk #1 is compared with the table
+    entry ([process_vol_id] again).
+
+    [bug = true] is the off-by-one variant of [init_disk_set] (seeded change
+    C11-c2): [check_vol_id(ctx, sdsh_id, dmap, i)] instead of [i + 1], i.e.
+    table entry [i] is compared with the id remembered for disk [i]
+    ([dmap[i - 1]]). *)
+Definition ST_INVALID : N := 5.
+Definition NOT_MODELLED : N := 255.      (* single-partition / media file: outside this model *)
+
+Record hdr := { h_num : N;            (* set_disk_set *)
+                h_pos : Z; h_len : Z; (* page data extent *)
+                h_bs : N;             (* block size detected from the magic numbers *)
+                h_sys : N; h_set : N; h_time : N;   (* sadump_id, disk_set_id, time_stamp *)
+                h_vol : N;            (* vol_id of the partition header *)
+                h_disks : N;          (* disk #1 only: disk_num of the disk-set header *)
+                h_table : list N }.   (* disk #1 only: vol_info[].id *)
+
+Record dent := { v_id : N; v_seen : bool }.
+Record pstate := { ps_ext : list extent; ps_dm : list dent; ps_first : option (N * N * N * N) }.
+
+Definition disk_of (h : hdr) : disk := {| d_num := h_num h; d_pos := h_pos h; d_len := h_len h |}.
+
+(* the loop of init_disk_set over the volume table *)
+Fixpoint vol_table (bug : bool) (prev : option dent) (dm : list dent) (tb : list N)
+  : list dent + N :=
+  match dm with
+  | [] => inl []
+  | e :: dm' =>
+      match tb with
+      | [] => inr ST_CORRUPT                  (* "Disk set header too short" *)
+      | t :: tb' =>
+          let checked :=
+            if v_seen e then
+              if bug then match prev with
+                          | Some p => if (v_id p =? t)%N then inl e else inr ST_CORRUPT
+                          | None => inr UB_OOB_RANGE        (* dmap[-1] *)
+                          end
+              else if (v_id e =? t)%N then inl e else inr ST_CORRUPT
+            else inl {| v_id := t; v_seen := false |} in
+          match checked with
+          | inr st => inr st
+          | inl e' => match vol_table bug (Some e') dm' tb' with
+                      | inr st => inr st
+                      | inl r => inl (e' :: r)
+                      end
+          end
+      end
+  end.
+
+Definition probe_step (bug : bool) (st : pstate) (fidx : N) (h : hdr) : pstate + N :=
+  let n := N.of_nat (length (ps_ext st)) in
+  let ids := (h_bs h, h_sys h, h_set h, h_time h) in
+  let id_check :=
+    match ps_first st with
+    | None => inl (Some ids)                                  (* fidx == 0 *)
+    | Some (bs, sy, se, ti) =>
+        if negb (bs =? h_bs h)%N then inr ST_INVALID          (* Block size mismatch *)
+        else if negb (sy =? h_sys h)%N then inr ST_INVALID    (* System ID mismatch *)
+        else if negb (se =? h_set h)%N then inr ST_INVALID    (* Disk set ID mismatch *)
+        else if negb (ti =? h_time h)%N then inr ST_INVALID   (* Timestamp mismatch *)
+        else inl (Some (bs, sy, se, ti))
+    end in
+  match id_check with
+  | inr e => inr e
+  | inl first =>
+      if (h_num h =? 0)%N then inr (if (1 <? n)%N then ST_NOTIMPL else NOT_MODELLED)
+      else if (n <? h_num h)%N then inr ST_INVALID            (* Disk #k found, but only n files *)
+      else
+        let k := N.to_nat (h_num h - 1) in
+        match nth_error (ps_dm st) k, nth_error (ps_ext st) k with
+        | Some di, Some _ =>
+            if v_seen di then inr ST_INVALID                  (* Duplicate disk *)
+            else
+              (* process_vol_id: dmap->seen ? check : remember *)
+              let disk1_seen := match ps_dm st with e :: _ => v_seen e | [] => false end in
+              let dm1 :=
+                if disk1_seen then
+                  if (v_id di =? h_vol h)%N then inl (ps_dm st) else inr ST_CORRUPT
+                else inl (set_nth (ps_dm st) k {| v_id := h_vol h; v_seen := false |}) in
+              match dm1 with
+              | inr e => inr e
+              | inl dm =>
+                  let ext' := set_nth (ps_ext st) k
+                                {| x_pos := h_pos h; x_len := h_len h; x_fidx := fidx; x_seen := true |} in
+                  if (1 <? h_num h)%N then
+                    match nth_error dm k with
+                    | Some d' => inl {| ps_ext := ext';
+                                        ps_dm := set_nth dm k {| v_id := v_id d'; v_seen := true |};
+                                        ps_first := first |}
+                    | None => inr UB_OOB_RANGE
+                    end
+                  else
+                    (* init_disk_set *)
+                    if negb (h_disks h =? n)%N then inr ST_INVALID   (* Disk set comprises ... *)
+                    else match vol_table bug None dm (h_table h) with
+                         | inr e => inr e
+                         | inl (d0 :: dmr) =>
+                             inl {| ps_ext := ext';
+                                    ps_dm := {| v_id := v_id d0; v_seen := true |} :: dmr;
+                                    ps_first := first |}
+                         | inl [] => inr UB_OOB_RANGE
+                         end
+              end
+        | _, _ => inr UB_OOB_RANGE
+        end
+  end.
+
+Fixpoint probe_loop (bug : bool) (st : pstate) (fidx : N) (hs : list hdr) : pstate + N :=
+  match hs with
+  | [] => inl st
+  | h :: t => match probe_step bug st fidx h with
+              | inr e => inr e
+              | inl st' => probe_loop bug st' (fidx + 1)%N t
+              end
+  end.
+
+(** [sadump_probe] over the files as passed: the extent array or the error status *)
+Definition probe_set (bug : bool) (hs : list hdr) : list extent + N :=
+  match probe_loop bug {| ps_ext := repeat no_extent (length hs);
+                          ps_dm := repeat {| v_id := 0; v_seen := false |} (length hs);
+                          ps_first := None |} 0%N hs with
+  | inl st => inl (ps_ext st)
+  | inr e => inr e
+  end.
